@@ -18,8 +18,8 @@ the plain view (report.run_property).
 import ast
 import copy
 
-MAX_DEPTH = 2
-MAX_HELPER_STMTS = 70
+MAX_DEPTH = 4
+MAX_HELPER_STMTS = 250
 
 
 class InlineBlock(ast.stmt):
@@ -38,6 +38,25 @@ def _is_private(name):
 
 def _stmt_count(node):
     return sum(1 for n in ast.walk(node) if isinstance(n, ast.stmt))
+
+
+def _always_returns(stmts):
+    """structurally: every path through the statement list ends in a return / raise"""
+    if not stmts:
+        return False
+    last = stmts[-1]
+    if isinstance(last, (ast.Return, ast.Raise)):
+        return True
+    if isinstance(last, ast.If):
+        return _always_returns(last.body) and _always_returns(last.orelse)
+    if isinstance(last, ast.Try):
+        if last.finalbody and _always_returns(last.finalbody):
+            return True
+        main = _always_returns(last.orelse) if last.orelse else _always_returns(last.body)
+        return main and all(_always_returns(h.body) for h in last.handlers)
+    if isinstance(last, ast.With):
+        return _always_returns(last.body)
+    return False
 
 
 def _has_yield(node):
@@ -240,9 +259,13 @@ class Expander(object):
             body = body[1:]
         new_names = set(mapping.values()) | _names_in(ast.Module(body=body, type_ignores=[]))
         caller_names |= new_names
-        falls_through = True
+        falls_through = not _always_returns(body)
         body = self._rewrite_returns(body, mode, result_target)
-        if mode == 'assign':
+        if not falls_through:
+            # every path of the helper ends in a return: there is no implicit `None` result (a phantom definition of the
+            # result variable would otherwise be visible to syntax-directed rules)
+            pass
+        elif mode == 'assign':
             tail = ast.Assign(targets=[copy.deepcopy(result_target)], value=ast.Constant(value=None))
             ast.copy_location(tail, call)
             ast.fix_missing_locations(tail)
